@@ -179,7 +179,10 @@ def check(run, ctx):
     for n in ast.walk(lf_f.node):
         if isinstance(n, ast.Dict):
             written |= {k.value for k in n.keys if isinstance(k, ast.Constant) and isinstance(k.value, str)}
-    run.require("_project_root" in written, "lint_file no longer writes _project_root into the metadata")
+    if "_project_root" in written:
+        run.ok(S5, "Orchestrator.lint_file", "writes metadata['_project_root']")
+    else:
+        run.finding(S5, "Orchestrator.lint_file", "root-key-not-written", f"lint_file writes {sorted(written)} but not '_project_root', the key rules read the project root from", lf_f.loc)
     sections = set()
     for r in L.rules:
         for k in CF.section_key_reads(L, r):
